@@ -50,6 +50,8 @@ def prerequisite_collection(ctx, o, ps: PassShape):
             o.refute(ps.f, pt['stmt'], c, f"dependencies are filtered by `{src(c)}` before bounding the task (only `is not None` is allowed)")
     cn = ps.cfg.node_of(pt['stmt'])
     srcs = ps.collection_sources(it, cn)
+    pt['sources'] = srcs
+    pt['iter'] = it
     if srcs['unknown']:
         o.undecided(ps.f, pt['stmt'], srcs['unknown'][0], "dependency collection built in an idiom the rule does not recognise")
         return pt
